@@ -122,13 +122,23 @@ func runC08Core(c *sim.Ctx, t *testing.T) {
 	mode := c.Intn(3, "errmode")
 	pos := c.Intn(2, "position") // the failing action is the first or the second action of the walk
 	guardEmits := c.Bool("guardemits")
-	kinds := []string{"throw", "retbad", "emitbad", "retarr", "retfn", "retdate"}
-	cases := 0
+	kinds := []string{"throw", "retbad", "emitbad", "retarr", "retfn", "retdate", "retzero", "retfalse", "retempty"}
+	ks := []int{}
 	for k := 0; k <= n; k++ {
+		ks = append(ks, k)
+	}
+	if c.Chance(1, 10, "manyemits") {
+		// an action that emits more than the buffers are first made for
+		n = 15 + c.Intn(20, "nmany")
+		ks = []int{0, n / 2, n - 1, n}
+		kinds = []string{"throw", "retbad", "retzero", "none"} // none: the action completes
+	}
+	cases := 0
+	for _, k := range ks {
 		for _, kind := range kinds {
 			var ops []ref.Op
 			for i := 0; i < n; i++ {
-				if i == k {
+				if i == k && kind != "none" {
 					ops = append(ops, ref.Op{Kind: kind})
 				}
 				ops = append(ops, ref.Op{Kind: "emit", V: map[string]interface{}{"e": float64(i + 1)}})
@@ -136,7 +146,7 @@ func runC08Core(c *sim.Ctx, t *testing.T) {
 					ops = append(ops, ref.Op{Kind: "set", K: "n", V: float64(i)})
 				}
 			}
-			if k == n {
+			if k == n && kind != "none" {
 				ops = append(ops, ref.Op{Kind: kind})
 			}
 			okAct := &ref.Action{Ops: []ref.Op{{Kind: "emit", V: map[string]interface{}{"ok": 1.0}}, {Kind: "emit", V: map[string]interface{}{"ok": 2.0}}}}
